@@ -295,3 +295,60 @@ func H_C16_process_vs_rotate() {
 		verifReach("C16.rotation.end")
 	}
 }
+
+// a payload that asks for a per-event wrapper (EventWrapperInfo) and carries an HMAC-ed field
+type evPayload struct {
+	id   string
+	salt []byte
+	info []byte
+	Tok  string `class:"sensitive,hmac-sha256"`
+}
+
+func (p *evPayload) EventId() string  { return p.id }
+func (p *evPayload) HmacSalt() []byte { return p.salt }
+func (p *evPayload) HmacInfo() []byte { return p.info }
+
+// events with an event id are protected under the wrapper derived from the wrapper in force *now*: event X,
+// rotation payload, event X again -> the second one uses the key derived from the new wrapper
+func H_C16_event_id_across_rotation() {
+	oldW, newW := mkWrapper("old"), mkWrapper("new")
+	ef := &Filter{Wrapper: oldW, HmacSalt: []byte{1}, HmacInfo: []byte{2}}
+	id := nondetString()
+	verifAssume(id != "")
+	raw := nondetString()
+	ctx := context.Background()
+	salt, info := []byte{7}, []byte{8}
+	run := func() (string, bool) {
+		o, err := ef.Process(ctx, newEvent(&evPayload{id: id, salt: salt, info: info, Tok: raw}))
+		if err != nil || o == nil {
+			return "", false
+		}
+		p, ok := o.Payload.(*evPayload)
+		if !ok {
+			return "", false
+		}
+		return p.Tok, true
+	}
+	expect := func(base *aead.Wrapper) (string, bool) {
+		w, err := NewEventWrapper(ctx, base, id)
+		if err != nil {
+			return "", false
+		}
+		return refHmac(w.(*aead.Wrapper), salt, info, []byte(raw)), true
+	}
+	got1, ok1 := run()
+	if want, ok := expect(oldW); ok && ok1 {
+		verifAssert(got1 == want, "C16.eventid.first-event-under-wrapper-derived-from-current-key")
+	}
+	// rotate through a rotation payload, or through Rotate
+	if nondetBool() {
+		ef.Process(ctx, newEvent(&rotPayload{w: newW}))
+	} else {
+		ef.Rotate(WithWrapper(newW))
+	}
+	got2, ok2 := run()
+	if want, ok := expect(newW); ok && ok2 {
+		verifAssert(got2 == want, "C16.eventid.event-after-rotation-under-wrapper-derived-from-new-key")
+		verifReach("C16.eventid.end")
+	}
+}
